@@ -782,7 +782,8 @@ mod harnesses {
         let mut indents: usize = 0;
         let mut dedents: usize = 0;
         let mut i: usize = 0;
-        while i < res.len() {
+        // (bound by expected_len == res.len(): a value CBMC knows to be concrete)
+        while i < expected_len {
             let lex = &res[i];
             let kd = kind_of(&lex.token);
             if kd == K::Indent {
